@@ -585,6 +585,11 @@ func (in *Interp) lookup(st *State, fr *Frame, x *ssa.Lookup) []Alt {
 	mt := x.X.Type().Underlying().(*types.Map)
 	zero := in.zero(mt.Elem())
 	alts, found := in.lookupAlts(st, m, k, zero)
+	for i := range alts {
+		if alts[i].Cond == nil {
+			alts[i].Cond = smt.True
+		}
+	}
 	// merge into an ite chain when every value is a scalar term or the
 	// element type is an empty struct (set membership)
 	allScalar := true
